@@ -334,8 +334,8 @@ def predict(case, B, index_of, label=None):
     dup = False
     for a, (n, o) in zip(case['anns'], parsed):
         key = n if n != 'not' else 'not ' + (o[0] if o else '')
-        if key in byname:
-            dup = True
+        if key in byname or (n == 'not' and any(k.startswith('not ') for k in byname)):
+            dup = True                # two (not ...) are one annotation name: the parser reports an error
         byname[key] = o
         text_of[key] = a
     if dup:
